@@ -159,6 +159,7 @@ def run(tier):
     _cm_copy(chk, dim, t, h)
     _generic_kernel_symbolic(chk, tier, t, h)
     _controller(chk)
+    _error_norm_scaling(chk)
     _forwarding(chk)
     # the drivers apply the step kernels faithfully on every output grid (step = distance to the next node, dense output
     # evaluated on the accepted segment with that segment's start time): the driver protocol of C10.d, re-filed here
@@ -408,6 +409,35 @@ def _generic_kernel_symbolic(chk, tier, t, h):
 
 
 # ---------------------------------------------------------------------------------------- controller arithmetic
+def _error_norm_scaling(chk):
+    """The quantity compared with 1 in the accept test is the norm of the local error estimate h*sum_i e_i k_i / scale.
+    The step kernels already return err (err5, err3) = h * sum e_i k_i (C02.c); the drivers therefore may not multiply by |h|
+    again: an estimate low by the factor |h| lets the true error exceed the tolerance by 1/|h| (growing as the tolerance,
+    and with it h, shrinks).  Each adaptive driver is run twice in the harness with the same abstract step results and two
+    different step sizes; the accept-test expression must not change."""
+    from ..drivers import Harness, RK as RKM
+    from . import c10, c11
+    drivers = [(f, q, hm, False) for f, q, hm in c10.PLAIN if f != "fixed"] + [(f, q, hm, True) for f, q, hm in c11.DRIVERS if f != "fixed"]
+    for fam, q, ham, ev in drivers:
+        exprs = []
+        for h0 in (sp.Rational(1, 2), sp.Rational(1, 4)):
+            hns = Harness(accept_tape=(True,), ham=ham, h0=h0, event_tape=(sp.Integer(-1),) * 6)
+            if ev:
+                hns.run(RKM, q, t0=0, tmax=1)
+            else:
+                hns.run(RKM, q, grid=["0", "1"])
+            if not hns.err_conds:
+                raise AnalysisError(f"{q}: no accept/reject test on the error estimate was reached")
+            k, cond = hns.err_conds[0]
+            lhs, rhs = (cond.lhs, cond.rhs) if isinstance(cond, (sp.Le, sp.Lt)) else (cond.rhs, cond.lhs)
+            exprs.append(sp.simplify(lhs - rhs + 1) if rhs != 1 else lhs)
+        ratio = sp.simplify(exprs[0] / exprs[1])
+        chk.check(ratio == 1, "C02.e", f"{RKM}::{q}[error norm]",
+                  f"the accept test's error norm changes by the factor {ratio} when only the step size is halved (same kernel error estimates): the estimate h*sum e_i k_i returned "
+                  f"by the kernel is multiplied by |h| a second time, so errors up to 1/|h| times the tolerance are accepted", sample=f"{q}: err_norm = ||kernel estimate / scale||, no further factor h")
+    chk.count("driver tapes unrolled", 2 * len(drivers))
+
+
 def _controller(chk):
     ip = Interp()
     rt, at = sp.Symbol("rtol", positive=True), sp.Symbol("atol", positive=True)
